@@ -310,20 +310,41 @@ bool Instance::eval(const size_t argc, char* const* argv) {
     const CScript::const_iterator saved_pbegincodehash = env->pbegincodehash;
     bool ok = true;
     CScript::const_iterator it = script.begin();
+    // an operation that fails leaves the session where it was, as a failing step does: what it popped, pushed or
+    // counted before failing is put back (the operations before it on the line stay applied)
+    auto saved_stack = env->stack;
+    auto saved_altstack = env->altstack;
+    auto saved_vfExec = env->vfExec;
+    auto saved_nOpCount = env->nOpCount;
+    auto saved_execdata = env->execdata;
+    auto undo_failed_operation = [&]() {
+        env->stack = saved_stack;
+        env->altstack = saved_altstack;
+        env->vfExec = saved_vfExec;
+        env->nOpCount = saved_nOpCount;
+        env->execdata = saved_execdata;
+    };
     try {
         while (it != script.end()) {
+            saved_stack = env->stack;
+            saved_altstack = env->altstack;
+            saved_vfExec = env->vfExec;
+            saved_nOpCount = env->nOpCount;
+            saved_execdata = env->execdata;
             const bool stepped = StepScript(*env, it, &script);
             // restore after every operation: a later OP_CHECKSIG on the same line would otherwise build
             // its script code from a range starting in the temporary script and ending in the session script
             env->pbegincodehash = saved_pbegincodehash;
             if (!stepped) {
                 fprintf(stderr, "Error: %s\n", ScriptErrorString(*env->serror).c_str());
+                undo_failed_operation();
                 ok = false;
                 break;
             }
         }
     } catch (const std::exception& ex) {
         fprintf(stderr, "Error: exception thrown: %s\n", ex.what());
+        undo_failed_operation();
         ok = false;
     }
     env->pbegincodehash = saved_pbegincodehash;
